@@ -17,6 +17,9 @@ claimed = [c['property_id'] for c in m['checks']]
 for e in m['engines']:
     e['serves_properties'] = claimed
 m['setup_cmd'] = 'cd lean && lake build Lcapy ' + ' '.join('drv_' + c.lower() for c in claimed)
-m['not_applicable'] = [n for n in m.get('not_applicable', []) if n['property_id'] not in claimed]
+allp = [json.loads(l)['id'] for l in open(os.path.join(here, '..', 'properties.jsonl'))]
+reasons = {n['property_id']: n['reason'] for n in m.get('not_applicable', [])}
+m['not_applicable'] = [{'property_id': q, 'reason': reasons.get(q, 'not claimed yet: the Lean model, theorems and check for this property are still under construction (the technique applies; see DESIGN.md)')}
+                       for q in allp if q not in claimed]
 json.dump(m, open(p, 'w'), indent=1)
 print('claimed:', claimed)
